@@ -69,6 +69,8 @@ AddLzwRun == /\ st.part = "lzwr" /\ Len(st.runs) < 3
 AHOK == st.part = "ah" =>
           /\ AH!RefIsEncodingOf(AH!ImplEncode(st.x), st.x)
           /\ \A v \in AH!Variants : AH!RefIsEncodingOf(AH!EncVariant(st.x, v), st.x)
+          /\ \A w \in {1, 3, 64, 75}, ws \in {<<10>>, <<13, 10>>}, m \in BOOLEAN :
+                AH!RefIsEncodingOf(AH!EncWrapped(st.x, w, ws, m, m), st.x)
 A85OK == st.part = "a85" =>
           /\ A85!RefIsEncodingOf(A85!ImplEncode(st.x), st.x)
           /\ \A v \in A85!Variants : A85!RefIsEncodingOf(A85!EncVariant(st.x, v), st.x)
